@@ -139,7 +139,7 @@ fn gen_free_line(t: &mut Tape, sentinel: usize, mll: usize) -> Free {
     }
     // metadata-like lines of git log / git status
     if t.chance(1, 6) {
-        parts.insert(0, t.ps(&["Author:", "Date:  ", "Merge:", "On branch", "Changes not staged for commit:", "modified:  ", "Reflog:", "index 12..34", "similarity index 9%", "--", "++", "-", "+", "\\ No newline", "<<<<<<< x", "======="]).to_string());
+        parts.insert(0, t.ps(&["Author:", "Date:  ", "Merge:", "On branch", "Changes not staged for commit:", "modified:  ", "Reflog:", "index 12..34", "similarity index 9%", "--", "++", "-", "+", "\\ No newline", "<<<<<<< x", "=======", "Merge: 1a2b3c4 5d6e7f8", "This reverts commit 0123abc4d5e6f7a8b9c0d1e2f3a4b5c6d7e8f9a0.", "(cherry picked from commit deadbeefcafe)"]).to_string());
     }
     let mut visible = format!("{}{}", lead, parts.join(" "));
     if starts_with_marker(&visible) {
@@ -254,6 +254,11 @@ fn gen_cfg(t: &mut Tape) -> Cfg {
     }
     if t.chance(1, 12) {
         c.flag("raw");
+    }
+    // commit hashes are linked only in what is written to a terminal: with a link format at hand,
+    // hex words in free text (`Merge: 1a2b3c4 5d6e7f8`) must still pass unchanged into a pipe or file
+    if c.has("hyperlinks") && t.coin() {
+        c.set("hyperlinks-commit-link-format", "https://example.org/c/{commit}");
     }
     c
 }
